@@ -30,7 +30,8 @@ namespace rkcommon {
 
     void BufferReader::read(void *mem, size_t size)
     {
-      if (cursor + size > buffer->size())
+      // NOTE: written so that a huge 'size' cannot wrap 'cursor + size' around
+      if (cursor > buffer->size() || size > buffer->size() - cursor)
         throw std::runtime_error("Attempt to read past end of BufferReader!");
 
       if (mem && size > 0)
@@ -55,7 +56,7 @@ namespace rkcommon {
 
     void FixedBufferWriter::write(const void *mem, size_t size)
     {
-      if (cursor + size > buffer->size()) {
+      if (cursor > buffer->size() || size > buffer->size() - cursor) {
         throw std::runtime_error(
             "FixedBufferWriter::write size exceeds buffer");
       }
@@ -66,7 +67,7 @@ namespace rkcommon {
 
     void *FixedBufferWriter::reserve(size_t size)
     {
-      if (cursor + size > buffer->size()) {
+      if (cursor > buffer->size() || size > buffer->size() - cursor) {
         throw std::runtime_error(
             "FixedBufferWriter::reserve size exceeds buffer");
       }
